@@ -1,4 +1,4 @@
-import Zc.Proofs.Wire.Entry
+import Zc.Proofs.Wire.Record
 /-! Packet level: the limit check / rollback keeps the names table decodable, the section loops
 decode to the prefix they wrote, and one iteration of `packets()` is a well-formed datagram. -/
 namespace Zc.Wire.Encode
@@ -240,8 +240,8 @@ theorem encQuestion_pos (mc : Bool) (size : Nat) (names names' : Names) (out : B
         obtain ⟨rfl, _⟩ := hw
         simp [be16_length]; omega
 
-/-- answers inside the quantifier (NSEC excluded here; see `Zc/Proofs/Wire/Nsec.lean`) -/
-def WFAns (x : ERecord × Ms) : Prop := WFRec x.1 x.2 ∧ x.1.rdata.isNsec = false
+/-- answers inside the quantifier: the record with the `now` it was added with -/
+def WFAns (x : ERecord × Ms) : Prop := WFRec x.1 x.2
 
 instance (x : ERecord × Ms) : Decidable (WFAns x) := by unfold WFAns; infer_instance
 
@@ -264,13 +264,13 @@ theorem writeRecord_spec (H : Bytes) (hH : H.length = 12) (mc : Bool) (st st' : 
     have h1' : encRecord mc (H ++ st.body).length st.names r now = .ok (out, names') := by rw [hsz]; exact h1
     obtain ⟨hal, hok, hno⟩ := commit_spec H hH st st' k out names' ok hinv hpos
       (encRecord_names _ _ _ _ _ _ _ h1)
-      (fun hfin => (encRecord_spec mc (H ++ st.body) st.names names' out r now h12 hinv.names hwf.1 hwf.2 h1' hfin []).2)
+      (fun hfin => (encRecord_spec mc (H ++ st.body) st.names names' out r now h12 hinv.names hwf h1' hfin []).2)
       hw
     refine ⟨hal, fun hk => ?_, hno⟩
     obtain ⟨hb, hi, hfit⟩ := hok hk
     refine ⟨⟨out, hb, hpos⟩, hi, fun tail => ?_⟩
     have hfin : (H ++ st.body ++ out).length ≤ 16384 := by rw [List.length_append, hsz]; omega
-    have := (encRecord_spec mc (H ++ st.body) st.names names' out r now h12 hinv.names hwf.1 hwf.2 h1' hfin tail).1
+    have := (encRecord_spec mc (H ++ st.body) st.names names' out r now h12 hinv.names hwf h1' hfin tail).1
     rw [hb]
     simpa [List.append_assoc] using this
 
